@@ -124,6 +124,16 @@ impl Chain {
     /// the leftmost operator that has a later operator of the same priority with only tighter
     /// operators in between — the place where left and right grouping differ (assignments excluded)
     pub fn regroup_site(&self) -> Option<&'static str> {
+        fn inner(i: &Item) -> Option<&'static str> {
+            match i {
+                Item::Atom(_) => None,
+                Item::Not(x) => inner(x),
+                Item::Paren(c) => c.regroup_site(),
+            }
+        }
+        if let Some(s) = std::iter::once(&self.first).chain(self.rest.iter().map(|x| &x.2)).find_map(inner) {
+            return Some(s);
+        }
         let ops = self.ops();
         for i in 0..ops.len() {
             if ops[i].1 == 16 {
